@@ -1,63 +1,99 @@
 #!/usr/bin/env python3
 """Run the registered quick checks against the seeded changes under /verif/seeded/<id>/patch.diff.
-For each: git -C /repo apply; run ./check <prop> for every property (own property first); record the
-VIOLATION lines; git -C /repo checkout -- . afterwards. Results -> /verif/seeded/RESULTS.json and each meta.json.
-usage: seedeval.py [ids...] [--own-only]"""
-import sys, os, json, subprocess, glob, time
+
+Each change is applied in its own scratch worktree of /repo under /tmp/ev/<id> (never in /repo itself) and the
+check runs against that worktree (VERIF_REPO, see tools/check.py), so several changes are evaluated in parallel;
+the worktree and its build output are removed afterwards. Results -> /verif/seeded/RESULTS.json and each meta.json.
+
+usage: seedeval.py [ids...] [--all-props] [-j N] [--in-repo]
+  --all-props : run every property's check against each change (default: the change's own property only)
+  --in-repo   : the slow, literal procedure: git -C /repo apply; ./check; git -C /repo checkout -- .   (sequential)
+"""
+import sys, os, json, subprocess, glob, time, shutil, hashlib
+from concurrent.futures import ThreadPoolExecutor
 
 ROOT = '/verif'
 PROPS = ['C%02d' % i for i in range(1, 18)]
+EV = '/tmp/ev'
 
 
 def sh(cmd, **kw):
     return subprocess.run(cmd, shell=True, text=True, stdout=subprocess.PIPE, stderr=subprocess.STDOUT, **kw)
 
 
-def main():
-    args = [a for a in sys.argv[1:] if not a.startswith('--')]
-    own_only = '--own-only' in sys.argv
-    ids = args or sorted(os.path.basename(d) for d in glob.glob(ROOT + '/seeded/*') if os.path.isdir(d))
-    results = {}
-    rp = ROOT + '/seeded/RESULTS.json'
-    if os.path.exists(rp):
-        results = json.load(open(rp))
-    for sid in ids:
-        d = '%s/seeded/%s' % (ROOT, sid)
-        meta = json.load(open(d + '/meta.json'))
+def parse(c):
+    viol = [l for l in c.stdout.splitlines() if l.startswith('VIOLATION')]
+    info = []
+    for v in viol:
+        path = v.split('replay=')[1].split()[0]
+        try:
+            rj = json.load(open(path))
+            info.append(dict(line=v, config=rj.get('config'), history=rj.get('history', [])[:12],
+                             oracle=str(rj.get('oracle', rj.get('broken')))[:300]))
+        except Exception:
+            info.append(dict(line=v))
+    return info
+
+
+def evaluate(sid, all_props, in_repo):
+    d = '%s/seeded/%s' % (ROOT, sid)
+    meta = json.load(open(d + '/meta.json'))
+    own = meta['property']
+    order = [own] + ([p for p in PROPS if p != own] if all_props else [])
+    res = {}
+    if in_repo:
         assert sh('git -C /repo status --porcelain').stdout.strip() == '', '/repo is not clean'
         r = sh('git -C /repo apply %s/patch.diff' % d)
-        if r.returncode != 0:
-            results[sid] = dict(error='patch does not apply: ' + r.stdout[-300:])
-            continue
-        try:
-            own = meta['property']
-            order = [own] + ([] if own_only else [p for p in PROPS if p != own])
-            res = {}
-            for p in order:
-                t = time.time()
-                c = sh('cd %s && ./check %s --tier quick' % (ROOT, p), timeout=3600)
-                viol = [l for l in c.stdout.splitlines() if l.startswith('VIOLATION')]
-                info = []
-                for v in viol:
-                    path = v.split('replay=')[1].split()[0]
-                    try:
-                        rj = json.load(open(path))
-                        info.append(dict(line=v, config=rj.get('config'), history=rj.get('history', [])[:12], oracle=str(rj.get('oracle', rj.get('broken')))[:300]))
-                    except Exception:
-                        info.append(dict(line=v))
-                res[p] = dict(exit=c.returncode, violations=info, wall_s=round(time.time() - t, 1))
-            results[sid] = dict(property=own, detected_by_own=res[own]['exit'] != 0,
-                                detected_by=[p for p in res if res[p]['exit'] != 0], checks=res)
-            meta['check_results'] = dict(detected_by_own_check=res[own]['exit'] != 0,
-                                         detected_by=[p for p in res if res[p]['exit'] != 0],
-                                         own_violation=res[own]['violations'][:1])
-            json.dump(meta, open(d + '/meta.json', 'w'), indent=1)
-        finally:
+        wt, env = '/repo', ''
+    else:
+        wt = '%s/%s' % (EV, sid)
+        sh('git -C /repo worktree remove --force %s' % wt)
+        shutil.rmtree(wt, ignore_errors=True)
+        os.makedirs(EV, exist_ok=True)
+        r = sh('git -C /repo worktree add --detach %s HEAD && git -C %s apply %s/patch.diff' % (wt, wt, d))
+        env = 'VERIF_REPO=%s ' % wt
+    if r.returncode != 0:
+        return sid, dict(error='patch does not apply: ' + r.stdout[-300:])
+    try:
+        for p in order:
+            t = time.time()
+            c = sh('cd %s && %s./check %s --tier quick' % (ROOT, env, p), timeout=5400)
+            res[p] = dict(exit=c.returncode, violations=parse(c), wall_s=round(time.time() - t, 1))
+    finally:
+        if in_repo:
             sh('git -C /repo checkout -- .')
-            sh('rm -f %s/replays/*.json' % ROOT)
-        json.dump(results, open(rp, 'w'), indent=1)
-        print(sid, 'own:', results[sid].get('detected_by_own'), 'all:', results[sid].get('detected_by'), flush=True)
-    # restore the evidence files for the unchanged tree
+        else:
+            sh('git -C /repo worktree remove --force %s' % wt)
+            hb = '%s/build/alt-%s' % (ROOT, hashlib.sha256(os.path.realpath(wt).encode()).hexdigest()[:10])
+            shutil.rmtree(hb, ignore_errors=True)
+    out = dict(property=own, detected_by_own=res[own]['exit'] != 0,
+               detected_by=[p for p in res if res[p]['exit'] != 0], checks=res)
+    meta['check_results'] = dict(detected_by_own_check=res[own]['exit'] != 0,
+                                 detected_by=[p for p in res if res[p]['exit'] != 0],
+                                 own_violation=res[own]['violations'][:1])
+    json.dump(meta, open(d + '/meta.json', 'w'), indent=1)
+    return sid, out
+
+
+def main():
+    argv = sys.argv[1:]
+    jobs = 4
+    if '-j' in argv:
+        k = argv.index('-j')
+        jobs = int(argv[k + 1])
+        del argv[k:k + 2]
+    args = [a for a in argv if not a.startswith('--')]
+    all_props = '--all-props' in argv
+    in_repo = '--in-repo' in argv
+    ids = args or sorted(os.path.basename(d) for d in glob.glob(ROOT + '/seeded/*') if os.path.isdir(d))
+    rp = ROOT + '/seeded/RESULTS.json'
+    results = json.load(open(rp)) if os.path.exists(rp) else {}
+    with ThreadPoolExecutor(max_workers=1 if in_repo else jobs) as ex:
+        for sid, out in ex.map(lambda s: evaluate(s, all_props, in_repo), ids):
+            results[sid] = out
+            json.dump(results, open(rp, 'w'), indent=1)
+            print(sid, 'own:', out.get('detected_by_own'), 'all:', out.get('detected_by'), out.get('error', ''), flush=True)
+    sh('git -C /repo worktree prune')
     return 0
 
 
